@@ -434,7 +434,12 @@ class OpsMixin:
             changing = {"Name", "NamedExpr", "Subscript", "Call", "List"}
             if not (kn & changing):
                 return self.kind_test(v.inner, kn)
-            return self.decide(f"isinstance:X({v.inner.path()}):{'|'.join(sorted(kn))[:50]}")
+            res = self.decide(f"isinstance:X({v.inner.path()}):{'|'.join(sorted(kn))[:50]}")
+            if res and kn == {"Name"} and "Name" in v.inner.kinds:
+                # a rewritten node that is still a plain Name is the user's own name, loaded plainly
+                v.inner.kinds = frozenset(["Name"])
+                v.inner.opt = False
+            return res
         if kn is not None:
             if isinstance(v, UNode):
                 if force:
@@ -671,6 +676,8 @@ class OpsMixin:
         if isinstance(v, Sym):
             return BoundBuiltin(v, name)
         if type(v).__name__ == "Transf" and isinstance(v.inner, UNode):
+            if v.inner.kinds == {"Name"} and name == "id":
+                return self.unode_getattr(v.inner, name, node)
             if v.inner.kinds & {"Name", "NamedExpr"}:
                 raise AnalysisError(f"attribute {name} of a rewritten expression that may be a name at {self.cur_site}")
             sub = self.unode_getattr(v.inner, name, node)
